@@ -409,7 +409,7 @@ impl Property for C18 {
         nw.servers.push(mk_server(0, 1, PROTO, 2, nw.now, true));
         // position p answers (p == n: nobody does)
         // the answering server is listed under its first or its second public address
-        let live = if (n + p) % 2 == 0 { server_addr(0) } else { server_addr(20) };
+        let live = if (n + p) % 2 == 0 { server_addr(0) } else { server_alt_addr(0) };
         let addrs: Vec<SocketAddr> = (0..n).map(|k| if k == p { live } else { silent_addr(k) }).collect();
         let t = nw.mint(&TokenSpec { client_id: 800, user: 1, expire_seconds: 600, timeout, addrs, key: key(1), protocol: PROTO });
         nw.add_client(t, client_addr(0), 1);
